@@ -29,6 +29,7 @@ namespace sim
     std::vector<double> grain_sizes;          // per composition (negative = random)
     std::vector<bool> normalize;
     bool deflected = false;
+    double min_deflection = 1.0;
     std::vector<unsigned> comp_comps;         // compositions of the random composition model
     std::vector<double> comp_min, comp_max;
     bool comp_present = false;
